@@ -20,6 +20,7 @@ import CV.Proofs.StoreQueryFoot
 import CV.Proofs.BlockingQuery
 import CV.Proofs.StoreQueryCex
 import CV.Proofs.StoreQueryKv
+import CV.Proofs.StoreQueryDefect
 namespace CV.Store
 open CV
 
@@ -381,11 +382,51 @@ theorem reap_changes_no_result (q : Query) (s : State) (i u : Nat) :
   case servicesJoin => intro a _; rfl
   case serviceNodes => intro a _ _; rfl
 
-/- Findings `catalog:check-rebound-to-another-service` and `catalog:check-row-keeps-old-service-name` need two
-   services on one node; their witnesses (`reg n1 web + c2 on web; reg n1 db; reg n1 c2 on db` and
-   `reg n1 web + c2 on web; reg n1 {id web, name db}; dereg check c2`) are replayed against the real store
-   and against the model driver on every run (exhaustive catalog words of the harness); the model agrees
-   line by line. -/
+/-! Findings `catalog:check-rebound-to-another-service` and `catalog:check-row-keeps-old-service-name` need two
+services on one node; their concrete witnesses (`reg n1 web + c2 on web; reg n1 db; reg n1 c2 on db` and
+`reg n1 web + c2 on web; reg n1 {id web, name db}; dereg check c2`) are replayed against the real store and
+against the model driver on every run (exhaustive catalog words of the harness; the model agrees line by
+line). On the model they are stated as general facts about the write path: -/
+
+/-- Finding `catalog:check-rebound-to-another-service` on the model: when `ensureCheckTxn` writes a check bound to
+    instance `hc.svcId` (service `v`), the only per-service index row it touches is `service.<v.name>` — the
+    service the check was bound to before (if any) keeps its index row, whatever its result now shows. -/
+theorem check_rebound_leaves_previous_service_index {s s1 : State} {i : Nat} {p : Bool} {hc hc1 : Chk} {md : Bool} {v : Svc}
+    (hr : checkPrep s i p hc = .ok (s1, hc1, md)) (hs : hc.svcId ≠ "") (hv : svcFind s hc.node hc.svcId = some v)
+    (name : String) (hne : lc name ≠ lc v.name) :
+    idxGet s1.index (svcKey name) = idxGet s.index (svcKey name) ∧ idxGet s1.index kSvcExt = idxGet s.index kSvcExt := by
+  have k1 := svcKey_ne hne
+  have hn := normChk_node s i p hc
+  rw [checkPrep_eq] at hr
+  simp only [hn.1, hn.2.1, hs, hv, ne_eq, not_false_eq_true, if_true] at hr
+  repeat' (split at hr)
+  all_goals (try simp at hr)
+  all_goals (obtain ⟨rfl, -, -⟩ := hr)
+  all_goals (first | exact ⟨rfl, rfl⟩ | skip)
+  all_goals
+    simp [bumpServiceIdx, State.maxIdx2, State.maxIdx, idxGet_idxMax, svcKey, kSvcExt, lc_eq_iff, ikey, String.toList_append] at k1 ⊢
+    exact fun h => absurd h k1
+
+/-- Finding `catalog:check-row-keeps-old-service-name` on the model: deleting a service check bumps the index
+    row named by the check row's own copy of the service name, and no other service's row. -/
+theorem check_delete_bumps_only_the_row_s_service_name (s : State) (i : Nat) (node id : String) (x : Chk) (hx : x.svcId ≠ "")
+    (name : String) (hne : lc name ≠ lc x.svcName) :
+    idxGet (deleteCheckPre s i node id x).index (svcKey name) = idxGet s.index (svcKey name) := by
+  have k1 := svcKey_ne hne
+  simp [deleteCheckPre, hx, State.maxIdx2, State.maxIdx, idxGet_idxMax, svcKey, lc_eq_iff, ikey, String.toList_append] at k1 ⊢
+  exact fun h => absurd h k1
+
+
+/-- The Connect and tag-filtered variants (ConnectServiceNodes, ServiceTagNodes with a tag, CheckConnectServiceNodes,
+    CheckServiceTagNodes) return no rows in this model (no Connect instances, no tags): their results never
+    change, so the contract holds for them vacuously HERE; their real behaviour (proxies, gateways, tags) is
+    covered by the monitor-only part of the harness, which records three findings about them. -/
+theorem connect_and_tag_results_constant (s s' : State) (name tag : String) :
+    ((Query.connectNodes name).run s').2 = ((Query.connectNodes name).run s).2 ∧
+    ((Query.tagNodes name tag).run s').2 = ((Query.tagNodes name tag).run s).2 ∧
+    ((Query.csnConnect name).run s').2 = ((Query.csnConnect name).run s).2 ∧
+    ((Query.csnTag name tag).run s').2 = ((Query.csnTag name tag).run s).2 :=
+  ⟨rfl, rfl, rfl, rfl⟩
 
 /-! ### watch footprints -/
 
